@@ -511,7 +511,8 @@ Definition notify_host (cx : ctx) (key : bytes) (trans : bool) (st : state) : st
       let offl :=
         if trans && Nat.eqb (List.length key) 4 then
           match me_by_id (h_me h) (st_macs st) with
-          | Some e => filter (fun k => match find_host k (st_hosts st) with
+          | Some e => filter (fun k => negb (beqb k key) &&    (* /repo 481199c: the frame's own host is notified below, once *)
+                                       match find_host k (st_hosts st) with
                                        | Some v => negb (h_online v) && h_dirty v
                                        | None => false end) (me_hosts e)
           | None => []
